@@ -325,12 +325,13 @@ def rule_outline(text, arg):
                     break
                 k += 1
             stmt = text[toks[j].start:toks[k].end]
-            rule_outline.captured.append(stmt)
+            _TLS.captured.append(stmt)
             return _splice(text, [(toks[j].start, toks[k].end, repl.strip())]), 1, "statement `%s ...` outlined (trusted)" % prefix.strip()
     raise TransplantError("R7: statement `%s` not found" % prefix)
 
 
-rule_outline.captured = []
+_TLS = __import__("threading").local()  # units are expanded in parallel threads: the R7 captures are per thread
+_TLS.captured = []
 
 
 def rule_dropstmt(text, arg):
@@ -670,7 +671,7 @@ def expand(template_text, repo_root, read=None):
     lines = template_text.split("\n")
     out, report = [], []
     i = 0
-    rule_outline.captured = []
+    _TLS.captured = []
     all_renames = {}
     while i < len(lines):
         m = _ITEM_RE.match(lines[i])
@@ -689,9 +690,9 @@ def expand(template_text, repo_root, read=None):
         if kw == "outlined":
             # body of a trusted helper := verbatim text captured by an R7 rule (in order)
             idx = int(attrs.get("n", "0"))
-            if idx >= len(rule_outline.captured):
+            if idx >= len(_TLS.captured):
                 raise TransplantError("outlined region %s: nothing captured" % name)
-            body = rule_outline.captured[idx]
+            body = _TLS.captured[idx]
             txt = "\n".join(region)
             if all_renames:
                 # the helper's template text names the locals of the outlined statement: it follows the renames found in the items
